@@ -51,7 +51,33 @@ OWN_CONFIGS = True  # the runner's interpreter-configuration clones do not apply
 # A flagged run is compared with a reference run under THE SAME options: the property is about import order, not about options.
 # "+logging-debug" is not an interpreter option: the application configured logging for DEBUG (logging.basicConfig(level=DEBUG))
 # BEFORE its first chartparse import, so import-time code that asks `logger.isEnabledFor(DEBUG)` takes its other branch.
-FLAGSETS = [["-O"], ["-OO"], ["-I"], ["-S"], ["+logging-debug"]]
+# "+zip": the package is imported from a ZIP archive on sys.path (zipimport: no __file__ on disk, no sibling data files, no directory
+# to list) - a location like any other as far as importing goes.
+FLAGSETS = [["-O"], ["-OO"], ["-I"], ["-S"], ["+logging-debug"], ["+zip"]]
+_ZIP = None
+
+
+def zipped_package() -> str:
+    """the package's modules, as they are in the tree under observation now, in a zip archive (built once per shard, removed at exit)"""
+    global _ZIP
+    if _ZIP is None:
+        import atexit
+        import shutil
+        import tempfile
+        import zipfile
+
+        d = tempfile.mkdtemp(prefix="vmon-c20-zip-")
+        atexit.register(shutil.rmtree, d, True)
+        _ZIP = os.path.join(d, "chartparse-src.zip")
+        src = os.path.join(env.REPO, "chartparse")
+        with zipfile.ZipFile(_ZIP, "w") as z:
+            for root, dirs, files in os.walk(src):
+                dirs[:] = [x for x in dirs if x != "__pycache__"]
+                for f in files:
+                    if not f.endswith((".pyc", ".pyo")):
+                        full = os.path.join(root, f)
+                        z.write(full, os.path.join("chartparse", os.path.relpath(full, src)))
+    return _ZIP
 
 
 def all_orders(tier: str, seed: int) -> list[tuple[list[str], list[str]]]:
@@ -88,7 +114,7 @@ def run_child(steps, mods, timeout=120, dash_c=True, pyflags=(), use_between=Fal
     if _SRC is None:
         _SRC = open(CHILD).read()
     head = [env.PY, "-X", "faulthandler", *[f for f in pyflags if not f.startswith("+")]] + (["-c", _SRC] if dash_c else [CHILD])
-    p = subprocess.run(head + [env.REPO, json.dumps({"steps": steps, "modules": mods, "use_between": use_between,
+    p = subprocess.run(head + [zipped_package() if "+zip" in pyflags else env.REPO, json.dumps({"steps": steps, "modules": mods, "use_between": use_between,
                                                             "ambient": [f[1:] for f in pyflags if f.startswith("+")]})],
                        capture_output=True, text=True, timeout=timeout,
                        env={"PYTHONHASHSEED": "0", "PYTHONDONTWRITEBYTECODE": "1", "PATH": os.environ.get("PATH", "")},
